@@ -24,7 +24,10 @@ from ..steplib import Inst, micro_summary
 ID = 'C07'
 ALL = [cg.BASIC, cg.COMPOUND, cg.ORTH, cg.FINAL, cg.SH, cg.DH]
 B, C, O, F, S, D = cg.BASIC, cg.COMPOUND, cg.ORTH, cg.FINAL, cg.SH, cg.DH
+from .c02 import TEMPLATES as _C02T
+
 TEMPLATES = {
+    'TN1': _C02T['TN1'], 'TN2': _C02T['TN2'],
     # root{Z, P{Q||{R1{a,b}, R2{c,d}}, H*}}: deep history over orthogonal content
     'TD': {'N': 10, 'par': [-1, 0, 0, 2, 3, 4, 4, 3, 7, 2], 'kind': [C, B, C, O, C, B, B, C, B, D]},
     # root||{R1{a1,a2}, R2{b1,b2}, R3}: three regions
@@ -53,11 +56,13 @@ LEVELS = {
 HASHSEED = {'quick': {'seeds': [0, 1, 2], 'levels': [
     {'name': 'H1-TD-M2-K3', 'templates': ['TD'], 'M': 2, 'K': 3, 'nevents': 2, 'hist_target': 1, 'guards': 0,
      'max_shards': 16, 'max_charts_per_shard': 60},
-    {'name': 'H2-N4-M2-K2', 'N': 4, 'M': 2, 'K': 2, 'guards': 0, 'max_shards': 32, 'max_charts_per_shard': 100}]},
+    {'name': 'H2-N4-M2-K2', 'N': 4, 'M': 2, 'K': 2, 'guards': 0, 'max_shards': 32, 'max_charts_per_shard': 100},
+    {'name': 'H3-TN-M1-K2', 'templates': ['TN1', 'TN2'], 'M': 1, 'K': 2, 'nevents': 1, 'guards': 0}]},
             'thorough': {'seeds': [0, 1, 2, 3, 4], 'levels': [
                 {'name': 'H1-TD-M2-K3', 'templates': ['TD'], 'M': 2, 'K': 3, 'nevents': 2, 'hist_target': 1, 'guards': 0},
                 {'name': 'H2-N4-M2-K2', 'N': 4, 'M': 2, 'K': 2, 'guards': 1, 'max_shards': 200},
-                {'name': 'H3-N5-M1-K2', 'N': 5, 'M': 1, 'K': 2, 'guards': 1, 'max_shards': 400}]}}
+                {'name': 'H3-N5-M1-K2', 'N': 5, 'M': 1, 'K': 2, 'guards': 1, 'max_shards': 400},
+                {'name': 'H4-TN-M2-K2', 'templates': ['TN1', 'TN2'], 'M': 2, 'K': 2, 'nevents': 1, 'guards': 0}]}}
 WITNESSES = ['yaml_route', 'api_permuted', 'two_transitions_in_one_step', 'error_in_both', 'orthogonal_exit']
 STUBS = ['guards "G(t, event)" shared by both runs (same z3 constants); entry/exit/action probes log']
 ASSUMPTIONS = ['well-formed charts (DESIGN §2)', 'events from {a, b}', 'guards without side effects', 'priorities: unbounded symbolic integers shared by both runs, assigned after construction',
